@@ -8,7 +8,11 @@ Transcribed from
   (`self.module_cache = imports.ModuleCache()`);
 * parso `grammar.py: Grammar._parse` and `cache.py: load_module` (`p_time <= item.change_time`),
   `_load_from_file_system` (`p_time > os.path.getmtime(pickle)` ⇒ outdated), `try_to_save_module`
-  (`_NodeCacheItem(module, lines, p_time)`, pickle written now).
+  (`_NodeCacheItem(module, lines, p_time)`, pickle written now);
+* `jedi/inference/gradual/typeshed.py: _try_to_load_stub` (steps 2–4 for a sub-module),
+  `_load_from_typeshed` / `_merge_create_stub_map` / `_create_stub_map` (the `os.listdir` based map
+  "importable name → .pyi file" of the parent package directory; `Cfg.stubListingCached` says whether
+  that function carries a process-wide memo), `_try_to_load_stub_from_file` / `parse_stub_module`.
 
 Parameters (modelled, not verified): `parse : B → T` (from-scratch parse; the diff parser is assumed
 to produce it), and the import finder `find` (importlib in the helper process) as a function of the
@@ -41,6 +45,9 @@ structure Cfg where
   cache : Bool              -- `_load_python_module`: `cache=True`
   diff : Bool               -- `diff_cache=settings.fast_parser`
   modCachePerScript : Bool  -- `ModuleCache()` created in `InferenceState.__init__`
+  stubListingCached : Bool := false
+                            -- `typeshed._create_stub_map` (the `os.listdir` map "name → .pyi" of one
+                            -- directory) carries a process-wide memo decorator (`lru_cache`, …)
 deriving DecidableEq, Repr
 
 structure State (B T : Type) where
@@ -49,6 +56,28 @@ structure State (B T : Type) where
   mem : Path → Option (Item B T) := fun _ => none        -- `parser_cache[hashed]` of this process
   pickles : Path → Option (Pickle B T) := fun _ => none  -- `settings.cache_directory`
   modcache : String → Option (Option T) := fun _ => none -- `inference_state.module_cache`
+  listings : Path → Option (Path → Bool) := fun _ => none -- memo of `_create_stub_map` per directory
+                                                          -- (exists only if `cfg.stubListingCached`)
+
+/-- one call of `typeshed._try_to_load_stub` for a sub-module `pkg.name` (`len(import_names) > 1`).
+The path arithmetic (`os.path.join`, `str(file_path) + 'i'`) is done by the caller:
+* `direct`   — step 2 "pyi next to py": `[<py__file__()> + 'i']` for a `.py` file,
+               `[<p>/__init__.pyi for p in py__path__()]` for a namespace package, `[]` otherwise;
+* `useListing` — step 3 `_load_from_typeshed`: the parent is a `ModuleValue` that is a package, so
+               `_merge_create_stub_map([PathInfo(dir)])` is consulted;
+* `pkgStub` / `modStub` — the two entries of `_create_stub_map(dir)` that yield the key `name`:
+               `<dir>/<name>/__init__.pyi` and `<dir>/<name>.pyi` (when both exist the real dict keeps
+               the one `os.listdir` yields last; the model prefers `pkgStub`, generators never create both);
+* `pyAbsent` — step 4: `python_value_set` is empty ⇒ `<p>/<name>.pyi` for `p` in the parent's
+               `py__path__()` (= `modStub`) is probed directly. -/
+structure StubQuery where
+  dir : Path
+  direct : List Path
+  useListing : Bool
+  pkgStub : Path
+  modStub : Path
+  pyAbsent : Bool
+deriving DecidableEq, Repr
 
 inductive Op (B : Type)
   | write (p : Path) (b : B) (m : Nat)   -- create or overwrite, the writer chooses the mtime
@@ -56,6 +85,7 @@ inductive Op (B : Type)
   | rename (src dst : Path)              -- `mv`: content and mtime travel
   | load (p : Path)                      -- a Script loads the module file `p`
   | importName (n : String)              -- a Script resolves the dotted name `n`
+  | stubImport (q : StubQuery)           -- a Script looks for the stub of a sub-module
   | newScript
   | newProcess
   | tick (dt : Nat)
@@ -120,6 +150,64 @@ def importName (find : (Path → Option (File B)) → String → Option Path) (s
       let (r, st') := load cfg parse st p
       (r, { st' with modcache := upd st'.modcache n (some r) })
 
+/-- `_create_stub_map(dir).get(name)` on a directory listing `ex` (which paths exist) -/
+def stubMapOf (ex : Path → Bool) (q : StubQuery) : Option Path :=
+  if ex q.pkgStub then some q.pkgStub else if ex q.modStub then some q.modStub else none
+
+/-- the listing `_create_stub_map(PathInfo(dir, False))` works on: `os.listdir` + `isdir`/`isfile`
+now — or, when the function is memoised, what they returned at the first call for `dir` in this
+process -/
+def listing (st : State B T) (dir : Path) : (Path → Bool) × State B T :=
+  let now : Path → Bool := fun p => (st.fs p).isSome
+  if cfg.stubListingCached then
+    match st.listings dir with
+    | some l => (l, st)
+    | none => (now, { st with listings := upd st.listings dir (some now) })
+  else (now, st)
+
+/-- `_try_to_load_stub_from_file` over candidates in order: `parse_stub_module` goes through the same
+parser cache layers as a python module (`cache=True, diff_cache=…, cache_path=…`); `OSError`
+(no such file) ⇒ `None` ⇒ next candidate -/
+def loadFirst (st : State B T) : List Path → Option (Path × T) × State B T
+  | [] => (none, st)
+  | p :: r =>
+    match load cfg parse st p with
+    | (some t, st') => (some (p, t), st')
+    | (none, st') => loadFirst st' r
+
+/-- `_try_to_load_stub` for a sub-module: steps 2 (direct probes), 3 (directory map of the parent
+package), 4 (direct probe when there is no python module).  Step 1 (`foo-stubs`) only applies to
+top-level names. -/
+def tryLoadStub (st : State B T) (q : StubQuery) : Option (Path × T) × State B T :=
+  match loadFirst cfg parse st q.direct with
+  | (some r, st1) => (some r, st1)
+  | (none, st1) =>
+    let viaMap : Option (Path × T) × State B T :=
+      if q.useListing then
+        let l := listing cfg st1 q.dir
+        loadFirst cfg parse l.2 (stubMapOf l.1 q).toList
+      else (none, st1)
+    match viaMap with
+    | (some r, st3) => (some r, st3)
+    | (none, st3) => if q.pyAbsent then loadFirst cfg parse st3 [q.modStub] else (none, st3)
+
+/-- what a process that holds nothing (no parser cache, no pickles, no listing memo) serves for the
+files as they are: the first candidate that exists, parsed from its present bytes -/
+def firstServed (fs : Path → Option (File B)) : List Path → Option (Path × T)
+  | [] => none
+  | p :: r =>
+    match fs p with
+    | some f => some (p, parse f.bytes)
+    | none => firstServed fs r
+
+def stubNow (fs : Path → Option (File B)) (q : StubQuery) : Option (Path × T) :=
+  match firstServed parse fs q.direct with
+  | some r => some r
+  | none =>
+    match (if q.useListing then firstServed parse fs (stubMapOf (fun p => (fs p).isSome) q).toList else none) with
+    | some r => some r
+    | none => if q.pyAbsent then firstServed parse fs [q.modStub] else none
+
 def step (find : (Path → Option (File B)) → String → Option Path) (st : State B T) : Op B → State B T
   | .write p b m => { st with fs := upd st.fs p (some { mtime := m, bytes := b }) }
   | .delete p => { st with fs := upd st.fs p none }
@@ -129,8 +217,9 @@ def step (find : (Path → Option (File B)) → String → Option Path) (st : St
     | some f => { st with fs := upd (upd st.fs s none) d (some f) }
   | .load p => (load cfg parse st p).2
   | .importName n => (importName cfg parse find st n).2
+  | .stubImport q => (tryLoadStub cfg parse st q).2
   | .newScript => if cfg.modCachePerScript then { st with modcache := fun _ => none } else st
-  | .newProcess => { st with mem := fun _ => none, modcache := fun _ => none }
+  | .newProcess => { st with mem := fun _ => none, modcache := fun _ => none, listings := fun _ => none }
   | .tick dt => { st with clock := st.clock + dt }
 
 def run (find : (Path → Option (File B)) → String → Option Path) (st : State B T) (h : List (Op B)) :
@@ -138,6 +227,9 @@ def run (find : (Path → Option (File B)) → String → Option Path) (st : Sta
   h.foldl (step cfg parse find) st
 
 def init : State B T := {}
+
+/-- a brand-new process with an empty cache directory looking at the same files -/
+def freshProcess (st : State B T) : State B T := { clock := st.clock, fs := st.fs }
 
 /-- the stamp `m` is newer than every stamp any cache layer holds for `p` -/
 def Fresh (st : State B T) (p : Path) (m : Nat) : Prop :=
